@@ -79,15 +79,16 @@ def run(cfg):
         raise AnalysisError('%s: isLeapYear() cannot be folded (%s)' % (f.loc, ex))
     ob('R1', f.name, f.loc, not bad, 'isLeapYear() differs from the Gregorian rule (divisible by 4, not by 100 unless by 400) for the years %s%s' % (bad[:6], ' ...' if len(bad) > 6 else ''))
     # R1 Python: _days_in_month(year, month) is interpreted (E-SEQ) on every month of the same years
-    from .aeval import AEval, Raised
+    from .pyeval import PyEval, Raised
     tr = py.load(cfg, 'tools/tzdb/transformer.py')
     pf = tr.fn('_days_in_month')
     R.analysed['python_modules'] = [tr.rel]
     bad_leap, bad_len = [], []
+    pev = PyEval(cfg, max_steps=5000000)
     for y in years:
         for mth in range(1, 13):
             try:
-                v = AEval(module=tr).call_function('_days_in_month', [y, mth])
+                v = pev.call(tr, '_days_in_month', [y, mth])
             except Raised as r_:
                 v = 'raises %s' % r_.what
             want = calendar.monthrange(y, mth)[1]
@@ -159,58 +160,56 @@ def julian_rule(R, lib, ob):
         if full or d.year in special_years or d.day in (1, 28, 29) or nxt.day == 1:
             dates.append(d)
         d = nxt
-    # -- toEpochDays
+    # -- toEpochDays and its inverse, through the real bodies (constant propagation, acv/ceval.py; typed interpretation when
+    #    a body uses something the folder does not follow): LocalDate(y, m, d).toEpochDays() and LocalDate::forEpochDays(e)
+    from .aeval import AEval, AObj, CxxModule, cxx_object
     f = lib.fn('ace_time::LocalDate::toEpochDays')
-    sx = SymExec(fold_global=lib.global_value)
-    s = sx.run(f.name, f.body, {})
-    forms = [_P(res) for g, kind, res, eff in s.paths if kind == 'return' and res is not None and not _P(res).is_const()]
-    c = 'LocalDate::toEpochDays'
-    if len(forms) != 1:
-        ob('R3', c, f.loc, False, 'expected one non-sentinel return expression, found %d' % len(forms))
-    else:
-        def leaf(a):
-            if a[0] == 'sym':
-                return {'this.mYearTiny': "v['yt']", 'this.mMonth': "v['m']", 'this.mDay': "v['d']"}.get(a[1])
-            if a[0] == 'fn' and a[1].endswith('LocalDate::year'):
-                return "(v['yt'] + 2000)"
-            return None
-        fn = compile_poly(forms[0], leaf)
-        bad = []
-        for dt in dates:
-            got = fn({'yt': dt.year - 2000, 'm': dt.month, 'd': dt.day})
-            if got != dt.toordinal() - epoch_ord:
-                bad.append('%s -> %d (expected %d)' % (dt.isoformat(), got, dt.toordinal() - epoch_ord))
-        R.note('toEpochDays evaluated on %d dates' % len(dates))
-        ob('R3', c, f.loc, not bad, 'the day-count formula is wrong for %d of the %d dates evaluated, e.g. %s' % (len(bad), len(dates), '; '.join(bad[:3])))
-    # -- extractYearMonthDay
-    g = lib.fn('ace_time::LocalDate::extractYearMonthDay')
-    sx = SymExec(fold_global=lib.global_value)
-    sx.out_params = {p for p, _t in g.params[1:]}
-    s = sx.run(g.name, g.body, {})
-    c = 'LocalDate::extractYearMonthDay'
-    if len(s.paths) != 1:
-        ob('R3', c, g.loc, False, 'expected a straight-line body')
-        return
-    eff = {}
-    for n, v in s.paths[0][3]:
-        if n in sx.out_params:
-            eff[n] = _P(v)
-    names = [p for p, _t in g.params[1:]]
-    if set(eff) != set(names):
-        ob('R3', c, g.loc, False, 'not all of %s are assigned' % names)
-        return
-    arg = g.params[0][0]
+    g = lib.fn('ace_time::LocalDate::forEpochDays')
+    amod = CxxModule(lib, ['ace_time::'])
+    cev = CEval(lib)
 
-    def leaf2(a):
-        return "v['e']" if a == ('sym', arg) else None
-    fns = [compile_poly(eff[n], leaf2) for n in names]
-    bad = []
-    for dt in dates:
-        e = dt.toordinal() - epoch_ord
-        got = tuple(fn_({'e': e}) for fn_ in fns)
-        if got != (dt.year, dt.month, dt.day):
-            bad.append('%d -> %s (expected %s)' % (e, got, dt.isoformat()))
-    ob('R3', c, g.loc, not bad, 'the inverse formula is wrong for %d of the %d epoch days evaluated, e.g. %s' % (len(bad), len(dates), '; '.join(bad[:3])))
+    def to_days(dt, how):
+        if how == 'fold':
+            return cev.call(f, Obj({'mYearTiny': dt.year - 2000, 'mMonth': dt.month, 'mDay': dt.day}), ())
+        o = cxx_object(lib, 'ace_time::LocalDate')
+        o.attrs.update({'mYearTiny': dt.year - 2000, 'mMonth': dt.month, 'mDay': dt.day})
+        return AEval(module=amod, typed=True, max_steps=20000).call_function(f.name, [], recv=o, chosen=CxxModule._Fn(f))
+
+    def from_days(e, how):
+        if how == 'fold':
+            r = cev.call(g, None, (e,))
+            fl = getattr(r, 'fields', None) or getattr(r, 'f', None) or {}
+        else:
+            r = AEval(module=amod, typed=True, max_steps=20000).call_function(g.name, [e], chosen=CxxModule._Fn(g))
+            fl = r.attrs if isinstance(r, AObj) else {}
+        if not {'mYearTiny', 'mMonth', 'mDay'} <= set(fl):
+            raise ValueError('forEpochDays does not give a LocalDate (%r)' % (r,))
+        return (fl['mYearTiny'] + 2000, fl['mMonth'], fl['mDay'])
+    for c, fn_, probe in (('LocalDate::toEpochDays', to_days, dates[0]), ('LocalDate::extractYearMonthDay', from_days, 0)):
+        how = 'fold'
+        try:
+            fn_(probe, 'fold')
+        except Exception:
+            how = 'interpret'
+        sample = dates if how == 'fold' or full else [d_ for i, d_ in enumerate(dates) if i % 4 == 0 or d_.year in (1873, 1900, 2000, 2100, 2127)]
+        bad = []
+        try:
+            for dt in sample:
+                e = dt.toordinal() - epoch_ord
+                if fn_ is to_days:
+                    got = fn_(dt, how)
+                    if got != e:
+                        bad.append('%s -> %r (expected %d)' % (dt.isoformat(), got, e))
+                else:
+                    got = fn_(e, how)
+                    if got != (dt.year, dt.month, dt.day):
+                        bad.append('%d -> %s (expected %s)' % (e, got, dt.isoformat()))
+        except Exception as ex:
+            raise AnalysisError('%s: %s cannot be evaluated (%s)' % (f.loc, c, ex))
+        R.note('%s evaluated on %d dates (%s)' % (c, len(sample), how))
+        loc_ = f.loc if fn_ is to_days else lib.fn('ace_time::LocalDate::extractYearMonthDay').loc if lib.has_fn('ace_time::LocalDate::extractYearMonthDay') else g.loc
+        ob('R3', c, loc_, not bad, ('the day-count formula is wrong for %d of the %d dates evaluated, e.g. %s' if fn_ is to_days else
+                                    'the inverse formula is wrong for %d of the %d epoch days evaluated, e.g. %s') % (len(bad), len(sample), '; '.join(bad[:3])))
     # -- dayOfWeek and daysInMonth: constant propagation of every date / every (year, month) through the real bodies
     import calendar
     ev = CEval(lib)
